@@ -123,7 +123,7 @@ fn domain(p: P, tier: Tier) -> Vec<V> {
         P::CtxLen => ints(tier.pick(vec![0], vec![0, 1, 2, 3])),
         P::UnusedStr => vec![V::str("")],
         P::UnusedChar => vec![V::Char('a')],
-        P::ListU64 | P::ListStr | P::ElemU64 | P::ElemStr | P::ListIdx => {
+        P::ListU64 | P::ListStr | P::ElemU64 | P::ElemStr | P::ListIdx | P::ListLen | P::ListLen3 | P::UnusedInt => {
             unreachable!("List methods are C15's business; C17 does not enumerate them")
         }
     }
